@@ -1046,15 +1046,16 @@ impl Engine for C05 {
         }
     }
 
-    fn generate(&self, rng: &mut Rng, _tier: Tier) -> Case {
-        let nbundles = if rng.chance(1, 3) { 2 } else { 1 };
+    fn generate(&self, rng: &mut Rng, tier: Tier) -> Case {
+        let deep = tier == Tier::Thorough && rng.chance(1, 4);
+        let nbundles = if deep { rng.range(2, 3) as usize } else if rng.chance(1, 3) { 2 } else { 1 };
         let mut pc = rng.below(1 << 40);
         let tamper_pct = *rng.pick(&[0u64, 30, 60]);
         let bundles: Vec<BundleSpec> = (0..nbundles).map(|_| gen_bundle(rng, &mut pc, tamper_pct)).collect();
-        let nthreads = rng.range(2, 3) as usize;
+        let nthreads = if deep { rng.range(3, 4) as usize } else { rng.range(2, 3) as usize };
         let threads: Vec<Vec<Party>> = (0..nthreads)
             .map(|_| {
-                let n = rng.range(1, 2) as usize;
+                let n = if deep { rng.range(2, 3) as usize } else { rng.range(1, 2) as usize };
                 (0..n).map(|_| gen_party(rng, nbundles)).collect()
             })
             .collect();
